@@ -543,6 +543,8 @@ CORE_CFGS = {
     # name: (modules, env)
     "life": (["A", "B"], {"VP_HOOKS": "A:esx,B:x", "VP_CAP": "2"}),
     "ctx": (["A", "B"], {"VP_HOOKS": "A:x,B:e", "VP_CAP": "2"}),
+    "ctxc": (["A", "B"], {"VP_HOOKS": "A:x,B:e", "VP_CAP": "2", "VP_NAMES": "db,fs"}),
+    "lifec": (["A", "B"], {"VP_HOOKS": "A:esx,B:x", "VP_CAP": "2", "VP_NAMES": "db,fs"}),
     "ctxp": (["A", "B"], {"VP_HOOKS": "A:x,B:e", "VP_CAP": "2", "VP_CTXPERSIST": "1"}),
     "perm": (["A", "B"], {"VP_HOOKS": "A:s,B:sx", "VP_FLAGS": "A:RP/-,B:CUS", "VP_CAP": "2"}),
     "ps2q": (["A", "B"], {"VP_CAP": "2", "VP_CTXPERSIST": "1", "VP_SETUP": "loop2", "VP_MAXPAY": "2"}),
@@ -576,7 +578,7 @@ CORE_CFGS = {
 }
 
 
-def core_check(prop, tier, seed, quick_cfgs, thorough_cfgs, rule, Dq=5, Dt=7, budget_q=60000, budget_t=4000000, loop_cfgs=()):
+def core_check(prop, tier, seed, quick_cfgs, thorough_cfgs, rule, Dq=5, Dt=7, budget_q=60000, budget_t=4000000, loop_cfgs=(), col_cfgs=()):
     R = Result(prop, tier, seed)
     exe = build_core()
     quick = tier == "quick"
@@ -585,6 +587,8 @@ def core_check(prop, tier, seed, quick_cfgs, thorough_cfgs, rule, Dq=5, Dt=7, bu
         only = os.environ["VP_ONLY"].split(",")
         cfgs = [c for c in only if c in CORE_CFGS and not c.endswith(".loop")]
         loop_cfgs = [c[:-5] for c in only if c.endswith(".loop")]
+        col_cfgs = [c[:-4] for c in only if c.endswith(".col")]
+        cfgs = [c for c in cfgs if not c.endswith(".col")]
     tasks = []
     for name in cfgs:
         mods, env = CORE_CFGS[name]
@@ -600,6 +604,15 @@ def core_check(prop, tier, seed, quick_cfgs, thorough_cfgs, rule, Dq=5, Dt=7, bu
         tasks.append(lambda name=name, mods=mods, env=env, mp=mp: core_run(
             R, exe, "Core_mc_%s.cfg" % name, mods, env, Dq if quick else Dt, (budget_q if quick else budget_t) // 2,
             1500 if quick else 100000, 40, seed, maxpay=mp, workers=2, suffix=".loop"))
+    for name in col_cfgs:
+        # the same programs with module names that share a bucket of the context's module table (chains in the open-addressing map:
+        # teardown, evaluation passes and broadcasts iterate it while callbacks remove entries)
+        mods, env = CORE_CFGS[name]
+        env = dict(env, VP_NAMES="db,fs")
+        mp = int(env.get("VP_MAXPAY", "1"))
+        tasks.append(lambda name=name, mods=mods, env=env, mp=mp: core_run(
+            R, exe, "Core_mc_%s.cfg" % name, mods, env, Dq if quick else Dt, (budget_q if quick else budget_t) // 2,
+            1500 if quick else 100000, 40, seed, maxpay=mp, workers=2, suffix=".col"))
     vplib.parallel(tasks, max_workers=4)
     R.rule = ("programs = paths of the dumped TLC graph of Core.tla (configs: %s) whose edges are public API calls made from the top "
               "level or from inside callbacks and callback returns; every program is completed to a clean state (context released, "
@@ -614,13 +627,13 @@ def core_check(prop, tier, seed, quick_cfgs, thorough_cfgs, rule, Dq=5, Dt=7, bu
 
 @check("C01")
 def c01(prop, tier, seed):
-    return core_check(prop, tier, seed, ["life", "ps2q"], ["life", "ps2q", "ctx", "perm", "pub2"],
+    return core_check(prop, tier, seed, ["life", "lifec", "ps2q"], ["life", "lifec", "ps2q", "ctx", "perm", "pub2"],
                       "Compared after every step: module states, registered count, running_modules, callback kind/module/order, return codes.")
 
 
 @check("C07")
 def c07(prop, tier, seed):
-    return core_check(prop, tier, seed, ["ctx", "ctxp"], ["ctx", "ctxp", "life"],
+    return core_check(prop, tier, seed, ["ctx", "ctxp", "ctxc"], ["ctx", "ctxp", "ctxc", "life", "lifec"],
                       "Focus: context register/deregister/finalize/loop from top level and from callbacks, persistent and not.")
 
 
